@@ -218,7 +218,12 @@ def main(argv):
                 agg[o["name"]] = o["result"]
                 per_ob[o["name"]] = o
     broken_fns = {n: i for n, i in fn_status.items() if i["status"] != "ok"}
-    vacuous = {n: i.get("vacuous_exits") for n, i in fn_status.items() if i.get("vacuous_exits")}
+    # contradictory hypotheses on *every* exit mean a vacuous contract; a single infeasible branch that the cheap path pruning
+    # did not remove (e.g. a clip branch that the tabulated constants can never reach) is normal
+    vacuous = {n: i.get("vacuous_exits") for n, i in fn_status.items()
+               if i.get("vacuous_exits") and not i.get("live_exits") and not any(str(v).count(": loop ") for v in i.get("vacuous_exits"))}
+    vacuous.update({n: [v for v in i.get("vacuous_exits") if ": loop " in str(v)] for n, i in fn_status.items()
+                    if any(": loop " in str(v) for v in (i.get("vacuous_exits") or []))})
     failed = {n: s for n, s in agg.items() if s != "proved"}
     missing = sorted(x for x in locked if x not in agg and x.split("/")[0] not in broken_fns)
     if a.update_lock:
